@@ -29,6 +29,16 @@ def texts():
                 s = w(s)
                 if k in ('lam', 'formals', 'inherit', 'with', 'concat_nl', 'concat_chain_r', 'update_chain_r', 'impl_chain_r', 'lam_nl', 'with_nl') and n > 12: break        # exponential families (multiplicity 2 in Small.CostFam.table): finding F-19, bounded here
                 if n in (1, 2, 5, 12, 30, 60): yield 'nest-%s' % k, s
+    # character-level family (fourth round of seeds): CR / CRLF line ends, every short tail of line terminators and blanks after
+    # the last token and before the first one, form feed / vertical tab / NUL / BOM / non-ASCII in the same places
+    TAILS = ['', '\n', '\r\n', '\r', '\n\n', '\r\n\r\n', '\n\r\n', '\r\n\n', '\r\r', '\n\r', ' \r\n \r\n', '\t\r\n\t', '\n\n\n', '\r\n\r\n\r\n', '\f', '\v\n', '\x00', '\ufeff', '\u00a0\n', '\u2028', ' ', '\t']
+    BASES = ['{ a = 1; }', '1', '# header\n{ pkgs }:\npkgs.hello', '{\n  a = 1;\n\n  b = [\n    1\n  ];\n}', 'let\n  a = 1;\nin\na', '[ 1 2 ]', '"s"', "''\n  x\n''", 'x: x # c', '/* c */ 1']
+    for bse in BASES:
+        for crlf in (False, True):
+            b2 = bse.replace('\n', '\r\n') if crlf else bse
+            for tl in TAILS:
+                yield 'lineend-tail', b2 + tl
+                yield 'lineend-head', tl + b2 + '\n'
     for _ in range(N):
         base = G1.doc() if R.random() < 0.5 else G2.doc()
         b = base.encode(); ls = []; leaves(parse_to_ast(base), ls)
@@ -40,8 +50,10 @@ def texts():
         elif how == 'swap': a, c = R.choice(ls), R.choice(ls); t = b.replace(a.text, b'\0', 1).replace(c.text, a.text, 1).replace(b'\0', c.text, 1)
         elif how == 'truncate': t = b[:R.randrange(0, len(b))]
         else: t = ''.join(R.choice('{}[]();=.:,@?"\'$ \n\tabc019#/*-+<>!&|\\é→') for _ in range(R.randrange(1, 40))).encode()
-        try: yield how, t.decode()
+        try: td = t.decode()
         except UnicodeDecodeError: continue
+        if R.random() < 0.15: td = td.replace('\n', '\r\n') + R.choice(['', '\r\n', '\r\n\r\n', '\n\r\n'])       # CRLF spelling of the same text
+        yield how, td
 import signal
 class _Slow(Exception): pass
 def _alarm(sig, frm): raise _Slow()
